@@ -230,8 +230,199 @@ def bounded(chk):
 def run(chk):
     p1_flatten(chk)
     p2_arity(chk)
+    p3_expr_resources(chk)
+    p4_recursion_transparency(chk)
     bounded(chk)
     chk.assumptions += [
         "Node.flatten implementations (nodes.pyx) satisfy the callee contract used for flatten's proof: they change recursion_count only through nested flatten calls",
         "compiled evaluate.pyx behaves as its source read as Python (no cdef in flatten)",
     ]
+
+
+# ---------------------------------------------------------------------------- P3 resource contracts of the #expr operators
+EXPR = "mwlib/parser/expr.py"
+
+
+def p3_expr_resources(chk):
+    """every operator function of the #expr table, on arbitrary int / float operands: work
+    is bounded by the size of the operands.  Resource preconditions of the builtins that can
+    do work exponential in the *value* of an operand:
+      int ** int     requires |exponent| <= 4096 (or the base in {-1, 0, 1})
+      round(x, d)    requires d >= -4096 or d >= -(number of digits of x + 2)
+    (float arithmetic is O(1); math.* may raise OverflowError / ValueError, reported inline)"""
+    import ast
+    import z3
+    from pyvc import source
+    from pyvc.values import SInt, SReal, SStr, Closure, kind_of, z3_of
+    mod = source.module(EXPR)
+    ops = []
+    for n in mod.tree.body:
+        if isinstance(n, ast.Expr) and isinstance(n.value, ast.Call) and isinstance(n.value.func, ast.Name) and n.value.func.id in ("a", "addop"):
+            c = n.value
+            name = ast.unparse(c.args[0])
+            fn = c.args[2]
+            numargs = ast.literal_eval(c.args[3]) if len(c.args) > 3 else None
+            ops.append((name, fn, numargs))
+    chk.static("expr.operator_table_found", len(ops) >= 30, f"{len(ops)} operators registered with addop")
+    trusted_float = []
+    for name, fn, numargs in ops:
+        if isinstance(fn, ast.Attribute) and ast.unparse(fn).startswith("math."):
+            trusted_float.append(name)       # C float functions: O(1)
+            continue
+        if isinstance(fn, ast.Name) and fn.id in ("abs", "int"):
+            trusted_float.append(name)
+            continue
+        ex = Explorer()
+        if isinstance(fn, ast.Lambda):
+            clo = Closure(fn, mod, None, f"<operator {name}>")
+            nargs = len(fn.args.args)
+        elif isinstance(fn, ast.Name) and fn.id in mod.defs:
+            clo = ex.function(EXPR, fn.id)
+            ex.inline.add(clo.ident)
+            nargs = len(mod.defs[fn.id].args.args)
+            chk.under_contract(clo)
+        else:
+            chk.static(f"expr.op[{name}].function_resolved", False, f"cannot resolve operator function {ast.unparse(fn)}")
+            continue
+
+        def pow_hook(I, a, b, name=name):
+            ka, kb = kind_of(a), kind_of(b)
+            if ka in ("int", "bool") and kb in ("int", "bool"):
+                x, y = I._int_term(a), I._int_term(b)
+                I.oblige("pow_exponent_bounded_by_a_constant", z3.Or(z3.And(y <= 4096, y >= -4096), z3.And(x >= -1, x <= 1)))
+                if I.decide(y >= 0):
+                    return SInt(I.fresh("pow", z3.IntSort()))
+            if I.decide(I.fresh("pow_overflows", z3.BoolSort())):
+                I.throw("OverflowError", "(34, 'Numerical result out of range')")
+            return SReal(I.fresh("powf", z3.RealSort()))
+        ex.pow_hook = pow_hook
+        from pyvc import models
+
+        def b_round(I, x, d=None, name=name):
+            if d is None:
+                return SInt(I.fresh("rounded", z3.IntSort()))
+            dz = I._int_term(d)
+            if kind_of(x) in ("int", "bool"):
+                xz = I._int_term(x)
+                ndigits = z3.Length(models.str_of_int(z3.If(xz >= 0, xz, -xz)))
+                I.oblige("round_digits_bounded_by_the_size_of_the_operand", z3.Or(dz >= -4096, dz >= -(ndigits + 2)))
+                return SInt(I.fresh("rounded", z3.IntSort()))
+            r = SReal(I.fresh("roundedf", z3.RealSort()))
+            return r
+        ex.models["builtins.round"] = Model("builtins.round (resource contract)", b_round)
+
+        def m_pow(I, x, y):
+            if I.decide(I.fresh("pow_overflows", z3.BoolSort())):
+                I.throw("OverflowError", "math range error")
+            return SReal(I.fresh("powf", z3.RealSort()))
+        ex.models["math.pow"] = Model("math.pow (float, O(1), may raise OverflowError)", m_pow)
+        ex.models["math.floor"] = Model("math.floor", lambda I, x: SInt(I.fresh("floor", z3.IntSort())))
+        ex.models["math.ceil"] = Model("math.ceil", lambda I, x: SInt(I.fresh("ceil", z3.IntSort())))
+        orig_int = ex.models["builtins.int"]
+
+        def harness(I, clo=clo, nargs=nargs):
+            args = []
+            for k in range(nargs):
+                if I.decide(I.sym_bool(f"arg{k}_is_int").z):
+                    args.append(I.sym_int(f"arg{k}"))
+                else:
+                    args.append(I.sym_real(f"argf{k}"))
+            saved = I.cur_target
+            I.cur_target = getattr(clo, "ident", None)
+            try:
+                from pyvc.interp import SymRaise
+                try:
+                    I.call(clo, args, {}) if not isinstance(clo.node, ast.Lambda) else I.invoke(clo, args, {})
+                except SymRaise as e:
+                    # evaluator exceptions are turned into an error span by EXPR / IFEXPR
+                    I.oblige("raises_only_arithmetic_errors", any(x in e.exc.cls.mro for x in ("ArithmeticError", "ValueError", "TypeError")),
+                             meta={"exc": e.exc.cls.name})
+            finally:
+                I.cur_target = saved
+            I.cover("end")
+
+        chk.prove(f"expr.op[{name}]", harness, ex, replay=replay_expr_resource)
+    chk.extra["expr_operators_trusted_as_O1_float_or_builtin"] = trusted_float
+
+
+def replay_expr_resource(model, obligation):
+    """run resource probes of every binary operator on the real evaluator under a cpu limit"""
+    import subprocess, sys
+    probes = []
+    for op in ("^", "e", "round", "*", "+", "mod", "/", "div"):
+        for a, b in (("7", "99999999"), ("5", "-9999999"), ("2", "999999999"), ("1.5", "99999999")):
+            probes.append(f"{a} {op} {b}")
+    code = ("import sys, time, resource; resource.setrlimit(resource.RLIMIT_CPU, (3, 3));\n"
+            "from mwlib.parser import expr\n"
+            "try:\n    expr.Expr().parse_expr(sys.argv[1])\nexcept Exception:\n    pass\n")
+    for p in probes:
+        r = subprocess.run([sys.executable, "-c", code, p], capture_output=True, text=True)
+        if r.returncode != 0:
+            return True, {"wikitext": "{{#expr: " + p + "}}", "problem": "more than 3 s cpu"}, "cpu"
+    return False, {"probes": len(probes)}, None
+
+
+# ---------------------------------------------------------------------------- P4 recursion errors are not swallowed by parser functions
+def p4_recursion_transparency(chk):
+    """TemplateRecursion / MemoryLimitError raised while a lazily expanded argument
+    (index >= 1; index 0 is already a string) is evaluated must unwind to the outermost call:
+    no magic / parser function may evaluate such an argument inside a catch-all handler."""
+    import ast
+    from pyvc import source
+    mod = source.module(MAGICS)
+    n_funcs = 0
+    for cls in [n for n in mod.tree.body if isinstance(n, ast.ClassDef)]:
+        for fn in [n for n in cls.body if isinstance(n, ast.FunctionDef)]:
+            params = [a.arg for a in fn.args.args]
+            if len(params) < 2:
+                continue
+            argname = params[1]
+            n_funcs += 1
+            bad = []
+            for t in ast.walk(fn):
+                if not isinstance(t, ast.Try):
+                    continue
+                broad = any(h.type is None or (isinstance(h.type, ast.Name) and h.type.id in ("Exception", "BaseException"))
+                            or (isinstance(h.type, ast.Tuple) and any(isinstance(e, ast.Name) and e.id in ("Exception", "BaseException") for e in h.type.elts))
+                            for h in t.handlers)
+                if not broad:
+                    continue
+                for st in t.body:
+                    for n in ast.walk(st):
+                        lazy = None
+                        if isinstance(n, ast.Subscript) and isinstance(n.value, ast.Name) and n.value.id == argname:
+                            if not (isinstance(n.slice, ast.Constant) and n.slice.value == 0):
+                                lazy = ast.unparse(n)
+                        if isinstance(n, ast.Call) and isinstance(n.func, ast.Attribute) and isinstance(n.func.value, ast.Name) \
+                                and n.func.value.id == argname and n.func.attr == "get":
+                            if not (n.args and isinstance(n.args[0], ast.Constant) and n.args[0].value == 0):
+                                lazy = ast.unparse(n)
+                        if isinstance(n, (ast.For, ast.comprehension)) and isinstance(n.iter, ast.Name) and n.iter.id == argname:
+                            lazy = "iteration over " + argname
+                        if lazy:
+                            bad.append((n.lineno, lazy))
+            if bad:
+                w, rep = replay_cycle(fn.name)
+                chk.static(f"magics.{cls.name}.{fn.name}.lazy_arguments_outside_catch_all", False,
+                           f"src/{MAGICS}: {[f'line {l}: {x}' for l, x in bad]} evaluated inside `except Exception`: a TemplateRecursion raised by the argument is swallowed",
+                           w, f"{fn.name}", rep)
+            else:
+                chk.static(f"magics.{cls.name}.{fn.name}.lazy_arguments_outside_catch_all", True, "")
+    chk.static("magics.functions_scanned", n_funcs >= 15, f"{n_funcs} magic / parser functions taking an argument list")
+
+
+def replay_cycle(fname):
+    """a template cycle of fan-out 2 through the branches of the function: must unwind at once"""
+    import subprocess, sys
+    name = "#" + fname.lower()
+    code = ("import sys, logging, resource; logging.disable(logging.CRITICAL); resource.setrlimit(resource.RLIMIT_CPU, (6, 6))\n"
+            "sys.path.insert(0, '/verif')\n"
+            "from contracts.c04 import TDB\nfrom mwlib.parser.expander import Expander\n"
+            "t = '{{%s: 1 | {{loop}} | x }}{{%s: 0 | y | {{loop}} }}' % (sys.argv[1], sys.argv[1])\n"
+            "out = Expander('a{{loop}}b', pagename='P', wikidb=TDB({'Loop': t})).expandTemplates()\n"
+            "sys.exit(0 if out == 'ab' else 3)\n")
+    r = subprocess.run([sys.executable, "-c", code, name], capture_output=True, text=True)
+    if r.returncode != 0:
+        return {"templates": {"Loop": "{{%s: 1 | {{loop}} | x }}{{%s: 0 | y | {{loop}} }}" % (name, name)}, "page": "a{{loop}}b",
+                "problem": "does not unwind to 'ab' within 6 s cpu" if r.returncode < 0 or r.returncode > 3 else "wrong output"}, True
+    return None, False
